@@ -126,7 +126,9 @@ class FakeFlows:
         torch.set_default_dtype(self._dtype)
 
 
-def make_model(dims, seed):
+def make_model(dims, seed, cut=False):
+    """2..3-d Gaussian likelihood, uniform prior on a box; with `cut` the prior is zero on part of the box
+    (x0 + x1 > 2), i.e. log_prior = -inf inside the bounds — a legal constrained model"""
     from nessai.model import Model
 
     class M(Model):
@@ -136,7 +138,10 @@ def make_model(dims, seed):
             self.mu = [0.5 * (i + 1) for i in range(dims)]
 
         def log_prior(self, x):
-            lp = np.log(self.in_bounds(x), dtype="float")
+            ok = self.in_bounds(x)
+            if cut:
+                ok = ok & ((x[self.names[0]] + x[self.names[1]]) <= 2.0)
+            lp = np.log(ok, dtype="float")
             return lp - dims * math.log(8.0)
 
         def log_likelihood(self, x):
@@ -185,7 +190,7 @@ def run_fake(cfg, seed, outdir, resume_after=None):
     np.random.seed(seed)
     torch.manual_seed(seed)
     dims = cfg["dims"]
-    model = make_model(dims, seed)
+    model = make_model(dims, seed, cfg.get("cut", False))
     snaps = []
     with FakeFlows(dims, cfg["reparam"] == "logit", None) as ff:
         sampler = ImportanceNestedSampler(
@@ -211,7 +216,7 @@ def run_fake(cfg, seed, outdir, resume_after=None):
             with open(os.path.join(outdir, "ckpt.pkl"), "rb") as f:
                 s2 = pickle.load(f)
             s2.resume_from_pickled_sampler  # noqa (attribute exists)
-            model2 = make_model(dims, seed)
+            model2 = make_model(dims, seed, cfg.get("cut", False))
             s2 = ImportanceNestedSampler.resume_from_pickled_sampler(s2, model2)
             snaps.append(snapshot(s2, "resumed"))
         return snaps, level_c, sampler
@@ -388,6 +393,8 @@ def oracle_snapshot(ctx, snap, sampler_model, names, case, level_logq=None, tol=
         if np.any((x < 0) | (x > 1)):
             ctx.oracle_fail(site + ":unit-cube", f"{name}: a stored sample lies outside the unit hypercube", case)
         phys = sampler_model.from_unit_hypercube(recs)
+        if not np.all(np.isfinite(sampler_model.log_prior(phys))):
+            ctx.oracle_fail(site + ":prior", f"{name}: a stored sample has zero prior", case)
         ll = sampler_model.log_likelihood(phys)
         if not np.allclose(ll, recs["logL"], rtol=1e-12, atol=1e-12, equal_nan=True):
             ctx.oracle_fail(site + ":logL", f"{name}: stored logL differs from the model at the physical point", case)
@@ -415,6 +422,8 @@ CONFIGS = [
     dict(dims=3, nlive=40, levels=4, strict=False, replace_all=False, draw_constant=True, iid=False, reparam=None, q=0.6, min_samples=10, save_log_q=True, weighted_kl=True),
     dict(dims=2, nlive=40, levels=3, strict=False, replace_all=True, draw_constant=True, iid=False, reparam="logit", q=0.5, min_samples=10, save_log_q=True, weighted_kl=False),
     dict(dims=2, nlive=50, levels=3, strict=False, replace_all=False, draw_constant=False, iid=True, reparam=None, q=0.7, min_samples=20, save_log_q=False, weighted_kl=True),
+    dict(dims=2, nlive=50, levels=3, strict=False, replace_all=False, draw_constant=True, iid=True, reparam="logit", q=0.5, min_samples=20, save_log_q=True, weighted_kl=True, cut=True),
+    dict(dims=2, nlive=40, levels=4, strict=True, replace_all=False, draw_constant=True, iid=False, reparam=None, q=0.5, min_samples=10, save_log_q=False, weighted_kl=False, cut=True),
     dict(dims=2, nlive=30, levels=5, strict=True, replace_all=False, draw_constant=True, iid=False, reparam=None, q=0.5, min_samples=10, save_log_q=True, weighted_kl=True),
 ]
 
@@ -458,7 +467,7 @@ def one_fake_run(ctx, cfg, seed, resume):
     ctx.traces += 1
     ctx.case(("fake", repr(cfg), seed, resume), True,
              {"cfg": cfg, "seed": seed, "snapshots": len(snaps), "samples_compared": nsamp, "ops": [o[:80] for o in ops[:4]]},
-             kind=f"tilt:strict={int(cfg['strict'])}:repl={int(cfg['replace_all'])}:iid={int(cfg['iid'])}:{cfg['reparam']}")
+             kind=f"tilt:strict={int(cfg['strict'])}:repl={int(cfg['replace_all'])}:iid={int(cfg['iid'])}:{cfg['reparam']}:cut={int(cfg.get('cut', False))}")
     ctx.hist["samples_compared"] += nsamp
 
 
@@ -473,7 +482,7 @@ def one_real_run(ctx, cfg, seed):
     case = {"kind": "neural-flow run", "cfg": cfg, "seed": seed}
     snaps = []
     try:
-        model = make_model(cfg["dims"], seed)
+        model = make_model(cfg["dims"], seed, cfg.get("cut", False))
         sampler = ImportanceNestedSampler(
             model, nlive=cfg["nlive"], output=tmp, seed=seed, plot=False, checkpointing=False,
             min_samples=cfg["min_samples"], max_iteration=cfg["levels"], min_iteration=cfg["levels"],
@@ -529,7 +538,7 @@ def correspond(ctx):
         for ci, cfg in enumerate(CONFIGS):
             for s in range(nseeds):
                 one_fake_run(ctx, cfg, base + 17 * ci + s + 1, resume=(s % 2 == 0))
-        for ci, cfg in enumerate(CONFIGS[: ctx.scale(2, 6)]):
+        for ci, cfg in enumerate([CONFIGS[0], CONFIGS[6]] if ctx.quick else CONFIGS):
             for s in range(ctx.scale(1, 3)):
                 one_real_run(ctx, cfg, base + 300 + 7 * ci + s)
     finally:
